@@ -557,6 +557,69 @@ fn main() {
             let shown: Vec<String> = ev.iter().map(|e| format!("{}@{}", e.0, e.1)).collect();
             std::fs::write(path, format!("asyncstd caller={} events=[{}] ok={}\n", caller, shown.join(","), ok as u8)).unwrap();
         }
+        "foreign-check" => {
+            // a wrapper created on a multi-threaded tokio runtime, then awaited on a plain OS
+            // thread by a hand-rolled executor (no runtime context there): whatever the call ends
+            // in - tokio refuses to spawn from such a thread -, the creation and interaction
+            // closures must not be run by the thread that awaits
+            let path = get("--out").expect("--out");
+            let rt = tokio::runtime::Builder::new_multi_thread().worker_threads(2).enable_all().build().unwrap();
+            let ran_on: Arc<Mutex<Vec<(String, std::thread::ThreadId)>>> = Arc::default();
+            let w = rt
+                .block_on(SyncWrapper::new(Runtime::Tokio1, || Ok::<_, ()>(0u32)))
+                .map_err(|_| ())
+                .expect("create");
+            let r2 = ran_on.clone();
+            let outcome = std::thread::spawn(move || {
+                let me = std::thread::current().id();
+                fn drive<F: Future>(f: F) -> Result<F::Output, ()> {
+                    let mut f = Box::pin(f);
+                    let waker = noop_waker();
+                    let mut cx = Context::from_waker(&waker);
+                    std::panic::catch_unwind(std::panic::AssertUnwindSafe(|| {
+                        for _ in 0..2000 {
+                            if let Poll::Ready(v) = f.as_mut().poll(&mut cx) {
+                                return Some(v);
+                            }
+                            std::thread::sleep(Duration::from_millis(1));
+                        }
+                        None
+                    }))
+                    .map_err(|_| ())
+                    .and_then(|o| o.ok_or(()))
+                }
+                let r3 = r2.clone();
+                let a = drive(w.interact(move |v| {
+                    r3.lock().unwrap().push(("interact".into(), std::thread::current().id()));
+                    *v += 1;
+                }))
+                .is_ok();
+                let r3 = r2.clone();
+                let b = drive(SyncWrapper::new(Runtime::Tokio1, move || {
+                    r3.lock().unwrap().push(("create".into(), std::thread::current().id()));
+                    Ok::<_, ()>(1u32)
+                }))
+                .is_ok();
+                (me, a, b, w)
+            })
+            .join();
+            let line = match outcome {
+                Err(_) => "foreign thread=panicked ok=0".to_string(),
+                Ok((me, a, b, w)) => {
+                    let on_awaiter: Vec<String> = ran_on.lock().unwrap().iter().filter(|e| e.1 == me).map(|e| e.0.clone()).collect();
+                    // the wrapper goes away inside the runtime again
+                    rt.block_on(async move { drop(w) });
+                    format!(
+                        "foreign interact_returned={} create_returned={} closures_run_by_the_awaiting_thread=[{}] ok={}",
+                        a as u8,
+                        b as u8,
+                        on_awaiter.join(","),
+                        on_awaiter.is_empty() as u8
+                    )
+                }
+            };
+            std::fs::write(path, line + "\n").unwrap();
+        }
         "replay" => {
             let inp = std::fs::read_to_string(get("--in").expect("--in")).unwrap();
             let mut out = std::io::BufWriter::new(std::fs::File::create(get("--out").expect("--out")).unwrap());
